@@ -164,7 +164,7 @@ PROPS = {
                      "Pep508.C06.marker_expression_never_panics", "Pep508.C06.marker_expression_err_span", "Pep508.C06.take_while_sliceable",
                      "Pep508.parseMarkers_total", "Pep508.descentOK", "Pep508.Cursor.takeWhile_slice",
                      "Pep508.C06.requirement_never_panics", "Pep508.C06.requirement_err_span", "Pep508.C06.requirement_external_calls",
-                     "Pep508.C06.requirement_url_ends_span", "Pep508.C06.requirement_url_ends_ok_span", "Pep508.C06.extras_never_panic", "Pep508.C06.name_never_panics"],
+                     "Pep508.C06.requirement_url_ends_span", "Pep508.C06.requirement_url_ends_ok_span", "Pep508.C06.display_never_panics", "Pep508.C06.marker_tree_err_renderable", "Pep508.C06.marker_expression_err_renderable", "Pep508.C06.requirement_err_renderable", "Pep508.C06.display_underlines_within", "Pep508.C06.extras_never_panic", "Pep508.C06.name_never_panics"],
         "suites": [{"name": "mparse", "args": ["C06"]}, {"name": "req", "args": ["C06"]}],
         "rule": "marker texts: the full operand-kind x operator x operand-kind table, derivations x layouts, and hostile mutations (multi-byte characters at token boundaries, "
                 "U+3000/U+0085 whitespace, NUL, lone quotes, truncations) through MarkerTree::parse_reporter and MarkerExpression::parse_reporter; requirement texts: derivations "
@@ -352,8 +352,8 @@ MANIFEST_TEXT = {
                      "error spans start on char boundaries; requirement-level parsers by differential model + hostile-input oracle in worker processes",
         "text": "parseMarkers_never_panics / parseExpression_never_panics / parseRequirement_no_panic (names, extras, URL scan, specifier scans, unnamed detection, marker hand-off): "
                 "no panic site is reachable for any Unicode input and any behaviour of the external parsers, every error span (and every span handed to pep440_rs / url) starts on a char "
-                "boundary; models compared with the code on hostile inputs in worker processes, every error rendered, every panic / poisoned lock reported.",
-        "note": _NOTE + "Display's own slicing is checked by the oracle (it clamps after F3); stack exhaustion on unbounded nesting and the unnamed parser are outside the model.",
+                "boundary, and formatting such an error never slices off a boundary whatever its length field holds (display_never_panics, *_err_renderable); models compared with the code on hostile inputs in worker processes, every error rendered, every panic / poisoned lock reported.",
+        "note": _NOTE + "Display's slicing is modelled (errDisplaySlices) and proved total for every span that starts on a char boundary, and compared with the printed underline on every error of the suites (unicode_width is an external function passed per case); stack exhaustion on unbounded nesting and the unnamed parser are outside the model; K3 (u64 overflow in debug builds) is a known finding.",
     },
     "C17": {
         "technique": "Lean 4 theorems on the typed dispatch (for every behaviour of the external parsers) and the chain builder + exhaustive table correspondence",
